@@ -31,7 +31,8 @@ ASSUMPTIONS = [
 SITES = ['start',
          'mpmc.push.tail_load', 'mpmc.push.seq_load', 'mpmc.push.tail_cas', 'mpmc.push.data_write', 'mpmc.push.seq_store',
          'mpmc.pop.head_load', 'mpmc.pop.tail_load', 'mpmc.pop.seq_load', 'mpmc.pop.head_cas', 'mpmc.pop.data_read', 'mpmc.pop.seq_store',
-         'mpmc.pushb.tail_load', 'mpmc.pushb.seq_load', 'mpmc.pushb.tail_cas', 'mpmc.pushb.data_write', 'mpmc.pushb.seq_store']
+         'mpmc.pushb.tail_load', 'mpmc.pushb.seq_load', 'mpmc.pushb.tail_cas', 'mpmc.pushb.data_write', 'mpmc.pushb.seq_store',
+         'mpmc.pop.data_destroy']
 TAGS = {'push': 1, 'pushfail': 2, 'pop': 3, 'popfail': 4, 'pushb': 5}
 CONFIGS = [(2, 0), (2, 1), (3, 0), (3, 1), (4, 0), (4, 1), (5, 0), (5, 1), (6, 0), (8, 0), (9, 1), (16, 0)]
 NOF = {(2, 0): 2, (2, 1): 2, (3, 0): 3, (3, 1): 4, (4, 0): 4, (4, 1): 4, (5, 0): 5, (5, 1): 8, (6, 0): 6, (8, 0): 8, (9, 1): 16, (16, 0): 16}
@@ -54,7 +55,7 @@ def op_txt(o):
 
 def op_steps(o, n):
     if o[0] in 'PCE': return 5
-    if o[0] in 'ORI': return 6
+    if o[0] in 'ORI': return 7
     k = min(len(o[1]), n)
     return 0 if k == 0 else 2 + 3 * k
 
@@ -99,6 +100,29 @@ def gen_case(r):
         left -= c
         progs[t].append(o)
     return {'cap': cap, 'rnd': rnd, 'progs': progs, 'sched': gen_sched(r, BUDGET, nt)}
+
+
+def probes():
+    """deterministic family: ring FULL, one consumer popping with each overload, one producer spinning on a push variant.
+    The producer runs r steps immediately after EVERY consumer step (lead = 0), or the consumer first runs alone up to and
+    including its head CAS (lead = 5) and from then on the producer runs r >= 4 steps after every consumer step, so that a
+    complete emplace (tail load, seq load, CAS, placement-new, seq store) fits between any two consecutive payload /
+    sequence accesses of the pop."""
+    out = []
+    for cap, rnd in [(2, 0), (3, 0), (4, 0), (3, 1)]:
+        n = NOF[(cap, rnd)]
+        for ov in 'ORI':
+            for spin, plans in (('E', ((0, 1), (0, 2), (0, 3), (5, 4), (5, 5), (5, 6), (5, 7))), ('P', ((5, 5),)), ('C', ((5, 5), (5, 6))), ('B', ((5, 5),))):
+                for lead, r in plans:
+                    tags = iter(range(1, 100))
+                    prod = [('E', next(tags)) for _ in range(n)]
+                    prod += [(spin, next(tags)) if spin != 'B' else ('B', [next(tags)]) for _ in range(16)]
+                    cons = [(ov,), ('ORI'['ORI'.index(ov) - 1],)]
+                    sched = [0] * (1 + 5 * n) + [1] * lead
+                    while len(sched) < BUDGET:
+                        sched += [1] + [0] * r
+                    out.append({'cap': cap, 'rnd': rnd, 'progs': [prod, cons], 'sched': sched[:BUDGET]})
+    return out
 
 
 def line_of(c):
@@ -146,8 +170,10 @@ def run(ctx):
         {'cap': 4, 'rnd': 0, 'progs': [[('B', [1, 2, 3])], [('P', 4)], [('O',), ('O',), ('O',), ('O',)]],
          'sched': [0, 0, 0, 1, 1, 1, 0, 1, 0, 1, 1, 0] + [0, 1, 2] * 29 + [0]},
     ]
-    n = 180 if ctx.quick else 3000
-    cases = fixed + [gen_case(r) for _ in range(n)]
+    n = 110 if ctx.quick else 3000
+    pr = probes()
+    ctx.cov['probe_cases_full_ring_producer_waiting'] = len(pr)
+    cases = fixed + pr + [gen_case(r) for _ in range(n)]
     outs = ls_common.run_cases(exe, [line_of(c) for c in cases])
     ctx.phase('run')
     terms, kept = [], []
@@ -166,7 +192,7 @@ def run(ctx):
     ctx.cov['distinct_nontrivial'] += len(distinct)
     ctx.cov['rule'] = ('random scripts for 2-4 threads (producers, consumers, mixed; single/batch push and pop in all API variants; <= 6 ops per thread, <= 95 steps) x 12 (Capacity, RoundUpToPowerOfTwo) '
                        'configurations (kBufferSize 2..16) x random or bursty schedules (100 decisions), one fork per case under vsched; non-trivial = some operation reached a CAS; '
-                       'distinct = distinct (trace, results, final state) strings')
+                       'distinct = distinct (trace, results, final state) strings; plus the deterministic full-ring probe family (capacity 2..4, each pop overload, producer spinning on each push variant, producer scheduled after every consumer step)')
     verdicts = ls_common.judge_parallel(ctx, 'From DV Require Import Base.Sched Model.MpmcModel Model.C34Check.', 'judge_mpmc', terms, shard_size=30)
     if verdicts is None:
         ctx.broken.append('correspondence L(C34): the model no longer evaluates')
@@ -205,4 +231,5 @@ def run(ctx):
     ctx.cov['cases_with_rejected_pop'] = sum(1 for _, p, _, _ in kept if any(tag == 4 for t in p['results'].values() for tag, _ in t))
     ctx.sample({'case': line_of(cases[0])[:200], 'impl': outs[0][:400]})
     ctx.sample({'case': line_of(cases[5])[:200], 'impl': outs[5][:400]})
+    ctx.sample({'case': line_of(cases[-1])[:200], 'impl': outs[-1][:400]})
     ctx.phase('correspond')
